@@ -31,6 +31,9 @@ func (w *slowWriter) Write(b []byte) (int, error) {
 	return len(b), nil
 }
 
+// namesByRef: ImportNames receives the recipe's own map object instead of a copy (sequential use only).
+var namesByRef bool
+
 // RunHistory executes a history on a fresh File and returns every output it produced.
 func RunHistory(h []Action, noformat bool) []byte { return RunHistoryW(h, noformat, false) }
 
@@ -56,6 +59,10 @@ func RunHistoryW(h []Action, noformat bool, slow bool) (res []byte) {
 			m := map[string]string{}
 			for k, v := range a.M {
 				m[k] = v
+			}
+			if namesByRef {
+				// a generator that keeps ONE names table and hands the same map object to every File it builds
+				m = a.M
 			}
 			f.ImportNames(m)
 		case "Anon":
@@ -227,6 +234,31 @@ func cmdDet(args []string) {
 				first = hh
 			}
 			hashes[hh] = true
+		}
+		// a generator that keeps one names table for all its Files: the recipe is built with the table object itself, then
+		// ANOTHER File receives the same table and, in a second ImportNames call, names of its own for the paths the
+		// recipe uses, then the recipe is built again - the same construction, hence the same bytes (a File that writes
+		// into the table it was given changes what the next build of the recipe sees)
+		if len(h) > 1 && h[1].A == "ImportNames" {
+			namesByRef = true
+			hashes[Hash(RunHistory(h, false))+Hash(RunHistory(h, true))] = true
+			more := map[string]string{}
+			for j := 0; j < 20; j++ {
+				more["hint/p"+strconv.Itoa(j)] = "hh" + strconv.Itoa(j)
+				for _, b := range []string{"d", "e", "fmt", "pkg"} {
+					more[fmt.Sprintf("m%d/%s", j, b)] = "zz" + strconv.Itoa(j) + b
+				}
+			}
+			safelyBytes(func() []byte {
+				fa := jen.NewFile("main")
+				fa.ImportNames(h[1].M)
+				fa.ImportNames(more)
+				fa.Var().Id("_").Op("=").Qual("m0/d", "X")
+				return []byte(fa.GoString())
+			})
+			hashes[Hash(RunHistory(h, false))+Hash(RunHistory(h, true))] = true
+			namesByRef = false
+			tw.Distinct("shared_table_rounds", strconv.Itoa(i))
 		}
 		// the same construction on several goroutines at once, written through slow writers: still the same bytes
 		if i%4 == 0 {
